@@ -267,6 +267,39 @@ theorem seqLike_bl {ext : Ext} [ExtPlain ext] {xs : SVals} (hpe : ElemsBl ext xs
     refine Bl.ctx_self _ (by rw [ha.path]; exact seqS_self hg.shape rfl (.inl rfl)) ?_
     unfold seqLikeWith; exact NoCtx.bl _
 
+/-- the only plain error of `ListBuilder::serialize_bytes`' element loop is the overflow of the offsets the list owns
+(the element builder annotates its own errors) -/
+theorem pushByteElems_plain (ext : Ext) (large : Bool) : ∀ (bs : Bytes) (el : B) (offs : List Int) (l : Int) (msg : String),
+    offs.getLast? = some l → 0 ≤ l → pushByteElems ext large el offs bs = .error (.err msg) →
+    msg = "offset overflow" ∧ l + bs.length > offMax large
+  | [], el, offs, l, msg, _, _, h => by simp [pushByteElems] at h
+  | x :: rest, el, offs, l, msg, hl, h0, h => by
+    simp only [pushByteElems] at h
+    simp only [List.length_cons]
+    by_cases hov : l + ((1 : Nat) : Int) > offMax large
+    · have hinc : incrementLast true large offs 1 = .error (.err "offset overflow") := by
+        unfold incrementLast
+        simp only [hl]
+        have h1 : ¬ (((1 : Nat) : Int) > offMax large) := by cases large <;> simp [offMax]
+        rw [if_neg h1, if_pos hov]; rfl
+      rw [hinc] at h
+      simp only [bind, Except.bind] at h
+      cases h
+      exact ⟨rfl, by omega⟩
+    · have hinc : incrementLast true large offs 1 = .ok (offs.dropLast ++ [l + ((1 : Nat) : Int)]) := by
+        unfold incrementLast
+        simp only [hl]
+        have h1 : ¬ (((1 : Nat) : Int) > offMax large) := by cases large <;> simp [offMax]
+        rw [if_neg h1, if_neg hov]
+      rw [hinc] at h
+      rcases bind_err_plain h with h | ⟨o, ho, h⟩
+      · cases h
+      · cases ho
+        rcases bind_err_plain h with h | ⟨el', _, h⟩
+        · rw [ann_eq_posAnn] at h; exact absurd h (ctx_never_plain _ _ msg)
+        · obtain ⟨hm, hgt⟩ := pushByteElems_plain ext large rest el' _ (l + ((1 : Nat) : Int)) msg (by simp) (by omega) h
+          exact ⟨hm, by omega⟩
+
 /-! ### `serialize_struct` (and the payload of a struct variant) -/
 
 def recS (ext : Ext) (path : String) (dt : DataType) (fields : SFields) : List String :=
